@@ -8,7 +8,7 @@ import traceback
 
 from . import harness
 from .gen_project import expand_memory
-from .gen_requests import render, result_name
+from .gen_requests import render, result_name  # noqa (render re-exported)
 from .project import ATOMIC, INT_BITS, LocateError, Project
 from .refcodec import ref_equal
 from .refplc import RefPLC
@@ -452,8 +452,36 @@ def _run_write(run, p, tgt, plc, reqs, forced_status, want_readback):
         extra = [d for d in done if d not in expected_svcs] or [d for d in set(done) if done.count(d) > expected_svcs.count(d)]
         missing = [d for d in expected_svcs if d not in done] or [d for d in set(expected_svcs) if expected_svcs.count(d) > done.count(d)]
         run.add("C02", "write.once", f"write services executed {sorted(done)[:6]} vs successful requests {sorted(expected_svcs)[:6]}; extra={extra[:3]} missing={missing[:3]}"[:700])
-    if set(rmws) != rmw_words or len(rmws) != len(set(rmws)):
-        run.add("C02", "write.once.rmw", f"read-modify-write services {sorted(rmws)[:6]} vs words addressed by successful bit writes {sorted(rmw_words)[:6]}")
+    # bit writes: every requested bit is touched (with the requested polarity) by at least one and at most as many
+    # read-modify-write services as there are requests for it (requests on one word may be merged); nothing else is touched
+    want_bits = {}
+    for r, e in succeeded:
+        if e["svc"][0] == "rmw":
+            word = e["svc"][1:]
+            bit = (e["start"] - word[1]) * 8 + (e["care"][0].bit_length() - 1)
+            want_bits.setdefault(word, {}).setdefault(bit, []).append(bool(e["data"][0]))
+    got_bits = {}
+    for rec in tgt.svc_log[s0:]:
+        if rec.get("executed") and rec["service"] == 0x4E:
+            word = (rec["tag"], rec["offset"], rec["length"])
+            om, am = rec["rmw"]
+            for b in range(rec["length"] * 8):
+                if om >> b & 1:
+                    got_bits.setdefault(word, {}).setdefault(b, []).append(True)
+                if not am >> b & 1:
+                    got_bits.setdefault(word, {}).setdefault(b, []).append(False)
+    if set(got_bits) != set(want_bits):
+        run.add("C02", "write.once.rmw.words", f"read-modify-write executed on {sorted(got_bits)[:5]}, bit writes address {sorted(want_bits)[:5]}")
+    else:
+        for word, bits in want_bits.items():
+            g = got_bits[word]
+            if set(g) != set(bits):
+                run.add("C02", "write.once.rmw.bits", f"{word}: services touch bits {sorted(g)}, requests address bits {sorted(bits)}")
+                break
+            for b, vals in bits.items():
+                if len(set(vals)) == 1 and (set(g[b]) != set(vals) or not 1 <= len(g[b]) <= len(vals)):
+                    run.add("C02", "write.once.rmw.count", f"{word} bit {b}: requested {vals}, services applied {g[b]}")
+                    break
     # 4: read back
     if want_readback and succeeded:
         names = []
